@@ -5,6 +5,13 @@
 // expressions / cycle).  The engine's observable *is* the order in which it calls
 // the interfaces a DSL implements, so no hook is needed.
 //
+// A behaviour (Eval.tla AllToks / RootToks) says which of Source / Preparer / Validator /
+// Finalizer the expression implements (one Go type per interface set) and where and how it
+// reports an error: eval.ReportError from its DSL, Prepare, Validate or Finalize,
+// eval.Context.Record from Validate, a returned *ValidationErrors (holding an error, empty,
+// or a nil pointer), or both.  The messages carry the error tag and the expression:
+// E dsl, P prepare, R recorded while validating, V returned by Validate, F finalize.
+//
 // Vector mode:  one line {"cfg": {...}} in, one line {"i", "obs"} out.
 // Random mode (-random N): N seeded cases with 5-6 roots, written as trace events
 // reset / cb / return for Trace_Eval.tla.
